@@ -431,6 +431,12 @@ def _structural(f, c):
                     break
             elif y[0] == "call" and (y[1].endswith(("::trim", "::trim_start", "::trim_end")) or y[4].endswith(("Deref::deref", "DerefMut::deref_mut", "AsRef::as_ref", "AsMut::as_mut"))) and y[2]:
                 y = strip(y[2][0])
+            elif y[0] == "call" and y[1].endswith(("::strip_prefix", "::strip_suffix")) and len(y[2]) == 2 and strip(y[2][1])[0] == "const" and strip(y[2][1])[2] not in ("", None):
+                # Some(rest) of strip_prefix/suffix with a non-empty pattern is strictly shorter
+                depth += 1
+                y = strip(y[2][0])
+            elif y[0] == "call" and (y[1].endswith(("Option::ok_or", "Option::ok_or_else", "Option::unwrap", "Option::expect")) or y[4] == "std::ops::Try::branch") and y[2]:
+                y = strip(y[2][0])
             elif y[0] == "call" and y[1].endswith(("::next", "::get", "::get_mut", "::first", "::last", "::iter", "::into_iter", "::iter_mut", "::values", "::unwrap", "::ok_or_else", "::branch")) and y[2]:
                 # element obtained from a collection that is itself part of the parameter
                 if y[1].endswith(("::next", "::get", "::get_mut", "::first", "::last")):
